@@ -129,9 +129,29 @@ def main(argv=None):
             results.extend(_run_chunk(c))
     else:
         ctx = multiprocessing.get_context("fork")
-        with ctx.Pool(jobs, initializer=_init_worker, initargs=(mod_name,), maxtasksperchild=getattr(mod, "MAXTASKS", None)) as pool:
-            for out in pool.imap_unordered(_run_chunk, chunks):
-                results.extend(out)
+        deadline = time.time() + float(os.environ.get("VERIF_DEADLINE_S", "1500" if args.tier == "quick" else "21600"))
+        pool = ctx.Pool(jobs, initializer=_init_worker, initargs=(mod_name,), maxtasksperchild=getattr(mod, "MAXTASKS", None))
+        try:
+            pending = [(i, pool.apply_async(_run_chunk, (c,))) for i, c in enumerate(chunks)]
+            while pending:
+                still = []
+                for i, ar in pending:
+                    if ar.ready():
+                        results.extend(ar.get())
+                    else:
+                        still.append((i, ar))
+                pending = still
+                if pending:
+                    if time.time() > deadline:
+                        stuck = [chunks[i][0] for i, _ in pending[:3]]
+                        print("HARNESS-ERROR property=%s %d work chunks did not finish before the deadline (a hang in the code under test "
+                              "or in the harness); first pending items: %s" % (cid, len(pending), json.dumps(stuck, default=str)[:1500]))
+                        pool.terminate()
+                        return 2
+                    time.sleep(0.05)
+        finally:
+            pool.terminate()
+            pool.join()
     agg = aggregate(results)
     extra = {}
     if hasattr(mod, "finish"):
@@ -146,7 +166,10 @@ def main(argv=None):
             print("HARNESS-ERROR property=%s %s" % (cid, h.get("harness_error")))
             if h.get("bad_item") is not None:
                 print("  item: %s" % json.dumps(h["bad_item"], default=str)[:2000])
-        return 2
+        if not agg["violations"]:
+            return 2
+        # violations found by the healthy items are still reported below (exit 1); no evidence is written
+        args.no_evidence = True
 
     # ---- violations: dedupe by key, consult known findings, confirm by replay, write artefacts
     known = [k for k in load_known() if k["property"] == cid]
@@ -154,6 +177,7 @@ def main(argv=None):
     for v in agg["violations"]:
         by_key.setdefault(v["key"], []).append(v)
     n_viol = 0
+    unconfirmed = []
     printed_known = set()
     rc = 0
     os.makedirs(os.path.join(ROOT, "replays"), exist_ok=True)
@@ -184,11 +208,17 @@ def main(argv=None):
                 print("HARNESS-ERROR property=%s replay of %s failed:\n%s" % (cid, path, traceback.format_exc()))
                 return 2
         if not confirmed:
-            print("HARNESS-ERROR property=%s violation %s did not reproduce on replay (%s)" % (cid, key, path))
-            return 2
+            # not deterministic: never reported as a violation; remembered in case nothing else is confirmed
+            unconfirmed.append((key, path))
+            n_viol -= 1
+            continue
         print("VIOLATION property=%s replay=%s" % (cid, path))
         print("  %s  [%d occurrences] %s" % (key, len(vs), v["what"]))
         rc = 1
+    for key, path in unconfirmed:
+        print("HARNESS-ERROR property=%s observation %s did not reproduce on replay (%s): not reported as a violation" % (cid, key, path))
+    if unconfirmed and rc == 0:
+        return 2
     # known findings that no longer fire are reported (not an error)
     for k in known:
         if k.get("status") == "known" and k["key"] not in by_key:
